@@ -653,6 +653,8 @@ func propC10(c *Ctx) {
 	rg := c.Rule("cache-grow", "VM.Run only appends to an existing module cache (the Eval session installs the modules earlier fragments loaded)", 1)
 	ruleCacheGrow(c, rg, vf)
 
+	rcr := c.Rule("compile-rollback", "a fragment that fails to compile leaves the session's module store consistent with its constants (rolled back), so the next fragment compiles", 1)
+	ruleCompileRollback(c, rcr, run, compileCall)
 	rsa := c.Rule("save-all-paths", "after the VM run every path of Eval.Run to a return stores r.Locals and r.ModulesCache (also for a failing fragment)", 2)
 	ruleEvalSaveAllPaths(c, rsa, run, vmRunCall)
 	rle := c.Rule("locals-elements", "no code of the package overwrites an element of Eval.Locals: the VM's slots (cells of captured variables included) come back verbatim", 1)
